@@ -28,6 +28,7 @@ FORMULAS = [
     "a + b + a:b + A:a", "0 + A", "0 + a:A", "A + a:A", "B + A:B:a",
     "center(a)", "scale(b)", "poly(a, 2)", "bs(a, df=4)", "C(A, contr.sum)", "C(A, contr.treatment('z')) + a", "C(B, contr.helmert):a",
     "y ~ a + A", "y ~ a | A", "log(a) + A",
+    "0 + A + a", "0 + n + a", "n + b", "0 + n:A + b",
 ]
 
 
@@ -35,6 +36,7 @@ def frames():
     clean = pd.DataFrame({
         "y": [1.0, 2.0, 3.0, 4.0, 5.0, 6.0],
         "a": [2.0, 3.0, 5.0, 7.0, 11.0, 13.0],
+        "n": [3, 1, 4, 1, 5, 9],
         "b": [1.5, -2.5, 3.25, 0.5, 4.75, 6.125],
         "A": pd.Series(list("xyzxyz"), dtype=object),
         "B": pd.Series(list("uuvvuv"), dtype=object),
@@ -67,7 +69,8 @@ def parts(mm):
     return [mm]
 
 
-ENTRIES = ["model_matrix", "Formula.get_model_matrix", "ModelSpec.from_spec.get_model_matrix", "Materializer(data).get_model_matrix", "reuse-spec"]
+ENTRIES = ["model_matrix", "Formula.get_model_matrix", "ModelSpec.from_spec.get_model_matrix", "Materializer(data).get_model_matrix", "reuse-spec",
+           "model_matrix(spec, **overrides)", "model_matrix(matrix, **overrides)", "spec.get_model_matrix(**overrides)"]
 MATS = ["pandas", "narwhals/pandas", "narwhals/arrow"]
 
 
@@ -89,6 +92,15 @@ def build(formula, df, entry, mat, output, na_action):
     if entry == "reuse-spec":
         first = model_matrix(formula, data, **opts)
         return first.model_spec.get_model_matrix(data)
+    if entry in ("model_matrix(spec, **overrides)", "model_matrix(matrix, **overrides)", "spec.get_model_matrix(**overrides)"):
+        # the spec is produced with OTHER options (another output type, the other null policy); the overrides must win
+        other = dict(opts, output={"pandas": "numpy", "numpy": "sparse", "sparse": "pandas"}[output])
+        first = model_matrix(formula, data, **other)
+        if entry == "model_matrix(spec, **overrides)":
+            return model_matrix(first.model_spec, data, **opts)
+        if entry == "model_matrix(matrix, **overrides)":
+            return model_matrix(first, data, **opts)
+        return first.model_spec.get_model_matrix(data, **opts)
     raise AssertionError(entry)
 
 
@@ -122,6 +134,11 @@ def drv(c, ctx, col):
         B, G = dense(b), dense(g)
         if (entry, mat, output) != ("model_matrix", "pandas", "pandas") and B.shape[1] >= 2:
             col.interesting()
+        inner = getattr(g, "__wrapped__", g)
+        kind = "pandas" if isinstance(inner, pd.DataFrame) else "sparse" if hasattr(inner, "toarray") else "numpy" if isinstance(inner, np.ndarray) else type(inner).__name__
+        if kind != output:
+            col.violation(key, dict(detail, part=j, container=kind, requested=output), sig="wrong-output-container:" + entry)
+            return
         bn, gn = list(b.model_spec.column_names), list(g.model_spec.column_names)
         if bn != gn:
             col.violation(key, dict(detail, part=j, names=gn, baseline_names=bn), sig="column-names-differ:" + mat)
@@ -141,4 +158,4 @@ def subchecks(tier, seed):
     quick = tier == "quick"
     fs = FORMULAS if not quick else FORMULAS[::2] + [FORMULAS[(2 * seed + 1) % len(FORMULAS)]]
     return [Sub("variants", drv, {"formulas": fs, "frames": ["clean", "nulls"] if quick else ["clean", "nulls", "nulls-shuffled-index"], "frame_objs": fr}, shard_depth=3,
-                bounds={"formulas": fs, "frames": ["clean (6 rows)", "nulls (3 null cells)"], "variants_per_pair": 90})]
+                bounds={"formulas": fs, "frames": ["clean (6 rows)", "nulls (3 null cells)"], "variants_per_pair": 144})]
